@@ -1,5 +1,5 @@
 (** * FreeListOpenRules: the open-world rules for one FreeList instance inside an arbitrary system.
-    (README for users at the end of this file.) *)
+    (README for users: at the end of LV.Proofs.FreeListOpenDhpThm.) *)
 From Coq Require Import ZArith List String Bool Lia PeanoNat.
 From LV Require Import Base.Conc Base.Events Model.FreeList Proofs.FreeListBase Proofs.FreeListInv Proofs.FreeListSteps
   Proofs.FreeListOpen.
